@@ -447,7 +447,7 @@ func c18BuildSequences(rng *hx.Rng, tier string, safe []rtCase) []c18Seq {
 
 // c18Sequences runs the sequences, evaluates the oracle on every ordinary step and adds every step
 // to the case files
-func c18Sequences(res *hx.Result, rng *hx.Rng, tier, outdir string, cf *hx.Cases, safe []rtCase) {
+func c18Sequences(res *hx.Result, rng *hx.Rng, tier, outdir string, addCase func(list, term, desc string), safe []rtCase) (pend []c18Pending) {
 	seqs := c18BuildSequences(rng, tier, safe)
 	in := make([][]c18StepIn, len(seqs))
 	for i, s := range seqs {
@@ -481,9 +481,9 @@ func c18Sequences(res *hx.Result, rng *hx.Rng, tier, outdir string, cf *hx.Cases
 			if o.Crash != "" {
 				res.Fail("generate-crash", fmt.Sprintf("sequence [%s]: GenerateIDL panics in step %d: %s", describe(s, k), k+1, o.Crash))
 			}
-			cf.Add("gcases", fmt.Sprintf("G %s %s %s %s", idlStr(c.pkg), objsTerm(o.Ordered), hx.Bool(o.Ok), idlStr(o.Text)), "generate in "+desc)
+			addCase("gcases", fmt.Sprintf("G %s %s %s %s", idlStr(c.pkg), objsTerm(o.Ordered), hx.Bool(o.Ok), idlStr(o.Text)), "generate in "+desc)
 			if o.Parse.Res <= 2 {
-				cf.Add("pcases", fmt.Sprintf("P %s %d%%N %s", idlStr(o.Text), o.Parse.Res, objsTerm(o.Parse.Objs)), "parse in "+desc)
+				addCase("pcases", fmt.Sprintf("P %s %d%%N %s", idlStr(o.Text), o.Parse.Res, objsTerm(o.Parse.Objs)), "parse in "+desc)
 			}
 			prefix += "|" + c.pkg + "|" + objsTerm(c.objs)
 			kind := "ordinary"
@@ -519,7 +519,8 @@ func c18Sequences(res *hx.Result, rng *hx.Rng, tier, outdir string, cf *hx.Cases
 				continue
 			}
 			if c.known != "" {
-				res.FailKnown("roundtrip", fmt.Sprintf("sequence step with a recorded weak input: meta-objects %s; generated IDL %q; %s", objsTerm(c.objs), o.Text, fail), c.known)
+				pend = append(pend, c18Pending{kind: "roundtrip", prio: 2, known: c.known,
+					det: fmt.Sprintf("sequence step with a recorded weak input: meta-objects %s; generated IDL %q; %s", objsTerm(c.objs), o.Text, fail)})
 				continue
 			}
 			fails = append(fails, failed{i, k, fail})
@@ -540,13 +541,14 @@ func c18Sequences(res *hx.Result, rng *hx.Rng, tier, outdir string, cf *hx.Cases
 			s := seqs[f.seq]
 			o := outs[f.seq][f.step]
 			if aerrs[j] == "" && aouts[j][0].Ok && rtFail(s.steps[f.step].c.objs, aouts[j][0].Parse) == "" {
-				res.Fail("roundtrip-depends-on-history", fmt.Sprintf("in one fresh process, [%s]: the package of step %d does not come back: %s; generated IDL %q. "+
+				pend = append(pend, c18Pending{kind: "roundtrip-depends-on-history", det: fmt.Sprintf("in one fresh process, [%s]: the package of step %d does not come back: %s; generated IDL %q. "+
 					"The same package alone in a fresh process round-trips (generated IDL %q): the result of a conversion depends on the conversions before it (%s)",
-					describe(s, f.step), f.step+1, f.fail, o.Text, aouts[j][0].Text, s.desc))
+					describe(s, f.step), f.step+1, f.fail, o.Text, aouts[j][0].Text, s.desc)})
 			} else {
-				res.Fail("roundtrip", fmt.Sprintf("sequence [%s]: the package of step %d does not come back (alone in a fresh process neither): %s; generated IDL %q",
-					describe(s, f.step), f.step+1, f.fail, o.Text))
+				pend = append(pend, c18Pending{kind: "roundtrip", det: fmt.Sprintf("sequence [%s]: the package of step %d does not come back (alone in a fresh process neither): %s; generated IDL %q",
+					describe(s, f.step), f.step+1, f.fail, o.Text)})
 			}
 		}
 	}
+	return pend
 }
